@@ -5,6 +5,7 @@ import sys
 import time
 import hashlib
 import traceback
+import fnmatch
 import multiprocessing as mp
 from pathlib import Path
 
@@ -70,9 +71,11 @@ class Ctx:
     def candidate(self, signature, what, replay_data):
         """A *replayed and reproduced* counterexample.  Known signature -> KNOWN-FINDING, else VIOLATION."""
         self.disagreements_checked += 1
-        if signature in self.known_sigs:
-            self.known_hits.setdefault(signature, what)
-            return False
+        for ks in self.known_sigs:
+            # a known signature may be a glob over the check-computed signature (the check documents its fields)
+            if signature == ks or fnmatch.fnmatchcase(signature, ks):
+                self.known_hits.setdefault(ks, what)
+                return False
         for v in self.violations:
             if v['signature'] == signature and len([w for w in self.violations if w['signature'] == signature]) >= 3:
                 return True  # keep at most 3 replays per signature
